@@ -324,7 +324,7 @@ def run(spec):
             vmode = "random"
 
         def new_move():
-            m = DisplacementMove(labels.copy(), make_op(rng, n))
+            m = DisplacementMove(labels.copy() if rng.random() < 0.8 else [int(x) for x in labels], make_op(rng, n))  # now and then a plain list
             if vmode != "none":
                 m.check_move = veto_fn(rng, vmode)
                 m.max_attempts = int(rng.integers(1, 5))
